@@ -185,7 +185,42 @@ def h_store(X, ins):
         return
     nil_check_lv(X, lv, ins['pos'])
     ownership_check(X, lv, ins)
+    store_clauses(X, lv, v, ins)
     store_lvalue(X.V, X.heap, lv, v)
+
+
+def store_clauses(X, lv, v, ins):
+    """`store T.f [label] expr` clauses of the function under verification: checked at every direct store to field f
+    of a T object, with target / newval / oldval bound to the object, the stored value and the value being overwritten"""
+    c = X.contract if X.top else None
+    if c is None or not c.get('stores') or lv.kind != 'fld':
+        return
+    from .speceval import SpecEval, SV, SpecError, resolve_type
+    sname, ref, fname = lv.data
+    for (target, lab, ast, txt) in c['stores']:
+        tn, fn_ = target.rsplit('.', 1)
+        try:
+            ty = resolve_type(X.w, tn, X.pkg)
+        except SpecError:
+            continue
+        if ty != sname or fn_ != fname:
+            continue
+        names = X.resolve_names(X.block, upto_idx=X.cur_idx)
+        env = X.spec_env(names)
+        fty = [f['type'] for f in X.w.struct_fields(sname) if f['name'] == fname][0]
+        env['target'] = SV(ref, '*' + sname)
+        env['newval'] = SV(v, fty)
+        env['oldval'] = SV(load_lvalue(X.V, X.heap, lv), fty)
+        ev = SpecEval(X.V, X.pkg, env, X.heap, old=X.top_entry_heap())
+        key = ('store:' + target, lab)
+        X.V.call_clause_seen = getattr(X.V, 'call_clause_seen', {})
+        X.V.call_clause_seen.setdefault(key, 0)
+        try:
+            X.oblige('store', ev.boolean(ast), ins.get('pos', ''), label='%s.%s' % (target, lab or '0'), text=txt)
+            X.V.call_clause_seen[key] += 1
+        except SpecError as e:
+            if 'unknown identifier' not in str(e):
+                raise OutOfSubset('store clause for %s in %s: %s' % (target, X.fnkey, e))
 
 
 def ownership_check(X, lv, ins):
